@@ -3,7 +3,7 @@
 (* B1: bounded model-checking instances of the reference keyspace and      *)
 (* emission of their transition tables.  An instance supplies             *)
 (*   Cmds    finite set of argument vectors                                *)
-(*   InitSt  initial keyspace                                              *)
+(*   SetupCmds commands building the initial keyspace from the empty one  *)
 (*   Bound(s) state constraint keeping the graph finite                    *)
 (* Every generated transition is printed as one JSON record                *)
 (*   {s, c, r, b, t} = source state, command, reply pattern, branch label, *)
@@ -12,7 +12,7 @@
 (***************************************************************************)
 EXTENDS KsMatch, Json
 
-CONSTANTS Cmds, InitSt, T0, Bound(_)
+CONSTANTS Cmds, SetupCmds, T0, Bound(_)
 
 VARIABLES st, out
 vars == <<st, out>>
@@ -29,18 +29,23 @@ StJ(s) == LET ks == SortBytes(DOMAIN s.db) IN
                           lo |-> IF HasExp(s, ks[i]) THEN s.exp[ks[i]].lo - T0 ELSE -1,
                           hi |-> IF HasExp(s, ks[i]) THEN s.exp[ks[i]].hi - T0 ELSE -1]]
 
+\* the initial keyspace is built from the empty one by the instance's setup commands (also replayed by the walker)
+RECURSIVE ApplyAll(_, _)
+ApplyAll(s, cs) == IF cs = <<>> THEN s ELSE ApplyAll(Exec(s, T0, Head(cs), NoHint)[1].s, Tail(cs))
+InitSt == ApplyAll(EmptyState, SetupCmds)
+ASSUME PrintT("SETUP " \o ToJson([c |-> SetupCmds]))
 ASSUME PrintT("INIT " \o ToJson(StJ(InitSt)))
 
 Init == st = InitSt /\ out = [c |-> <<>>, r |-> RNil, b |-> "init"]
 
-Next == \E c \in Cmds :
+\* states outside the bound are generated (their incoming edges are emitted and replayed) but not expanded
+Next == Bound(st) /\ \E c \in Cmds :
           LET o == Exec(st, T0, c, NoHint) IN
           \E i \in 1..Len(o) : st' = o[i].s /\ out' = [c |-> c, r |-> o[i].r, b |-> o[i].b]
 
 Spec == Init /\ [][Next]_vars
 
 Emit == PrintT("EDGE " \o ToJson([s |-> StJ(st), c |-> out'.c, r |-> out'.r, b |-> out'.b, t |-> StJ(st')]))
-Constraint == Bound(st)
 
 \* ---- properties of the reference model itself (the property statements, checked on the model) ----
 NoEmptyAggregates ==
